@@ -18,7 +18,9 @@
 // on its own path from the receiver (never a sibling's); a declared-mutating component never meets
 // the read-only panic; after everything has run an exporter's payload holds its arrival markers plus
 // its own only, and every other component's payload holds no marker of a component that is neither
-// upstream nor downstream of it; every component is reached exactly once; a pipeline advertises
+// upstream nor downstream of it; every component is reached exactly once — also when the caller's context
+// is already cancelled or gets cancelled while some component is working (and every component is handed
+// that same context); a pipeline advertises
 // MutatesData iff one of its processors mutates or all of its exporters (as advertised) do.
 package graph
 
@@ -66,9 +68,15 @@ type vWorldT struct {
 	cells    []any
 	arr      map[string]*vArr
 	recv     map[string]bool // receiver id -> MutatesData of the consumer it was given
-	push     map[string]func() error
+	push     map[string]func(context.Context) error
 	failures []string
+	// the caller's context: cancelled when component cancelAt is reached ("" = not during the run)
+	cancelAt string
+	cancel   func()
+	ended    bool
 }
+
+type vGCtxKey struct{}
 
 var vWorld *vWorldT
 
@@ -111,8 +119,18 @@ func (c *vComp) Start(context.Context, component.Host) error { return nil }
 func (c *vComp) Shutdown(context.Context) error              { return nil }
 func (c *vComp) Capabilities() consumer.Capabilities         { return consumer.Capabilities{MutatesData: c.mut} }
 
-func vHandle(c *vComp, payload any, ro bool, attrs func() pcommon.Map, next func() error) error {
+func vHandle(ctx context.Context, c *vComp, payload any, ro bool, attrs func() pcommon.Map, next func() error) error {
 	w := vWorld
+	if v, _ := ctx.Value(vGCtxKey{}).(int); v != 4242 {
+		w.fail("context-not-propagated", fmt.Sprintf("component %s was not handed the caller's context", c.id))
+	}
+	if (ctx.Err() != nil) != w.ended {
+		w.fail("context-state-differs", fmt.Sprintf("component %s sees ctx.Err()=%v, caller's context ended=%v", c.id, ctx.Err(), w.ended))
+	}
+	if c.id == w.cancelAt {
+		w.cancel()
+		w.ended = true
+	}
 	a := w.arr[c.id]
 	if a == nil {
 		a = &vArr{}
@@ -145,7 +163,7 @@ func (c *vComp) ConsumeTraces(ctx context.Context, td ptrace.Traces) error {
 	if c.nT != nil {
 		next = func() error { return c.nT.ConsumeTraces(ctx, td) }
 	}
-	return vHandle(c, td, td.IsReadOnly(), func() pcommon.Map { return td.ResourceSpans().At(0).Resource().Attributes() }, next)
+	return vHandle(ctx, c, td, td.IsReadOnly(), func() pcommon.Map { return td.ResourceSpans().At(0).Resource().Attributes() }, next)
 }
 
 func (c *vComp) ConsumeMetrics(ctx context.Context, md pmetric.Metrics) error {
@@ -153,7 +171,7 @@ func (c *vComp) ConsumeMetrics(ctx context.Context, md pmetric.Metrics) error {
 	if c.nM != nil {
 		next = func() error { return c.nM.ConsumeMetrics(ctx, md) }
 	}
-	return vHandle(c, md, md.IsReadOnly(), func() pcommon.Map { return md.ResourceMetrics().At(0).Resource().Attributes() }, next)
+	return vHandle(ctx, c, md, md.IsReadOnly(), func() pcommon.Map { return md.ResourceMetrics().At(0).Resource().Attributes() }, next)
 }
 
 func (c *vComp) ConsumeLogs(ctx context.Context, ld plog.Logs) error {
@@ -161,7 +179,7 @@ func (c *vComp) ConsumeLogs(ctx context.Context, ld plog.Logs) error {
 	if c.nL != nil {
 		next = func() error { return c.nL.ConsumeLogs(ctx, ld) }
 	}
-	return vHandle(c, ld, ld.IsReadOnly(), func() pcommon.Map { return ld.ResourceLogs().At(0).Resource().Attributes() }, next)
+	return vHandle(ctx, c, ld, ld.IsReadOnly(), func() pcommon.Map { return ld.ResourceLogs().At(0).Resource().Attributes() }, next)
 }
 
 func (c *vComp) ConsumeProfiles(ctx context.Context, pd pprofile.Profiles) error {
@@ -169,7 +187,7 @@ func (c *vComp) ConsumeProfiles(ctx context.Context, pd pprofile.Profiles) error
 	if c.nP != nil {
 		next = func() error { return c.nP.ConsumeProfiles(ctx, pd) }
 	}
-	return vHandle(c, pd, pd.IsReadOnly(), func() pcommon.Map { return pd.ResourceProfiles().At(0).Resource().Attributes() }, next)
+	return vHandle(ctx, c, pd, pd.IsReadOnly(), func() pcommon.Map { return pd.ResourceProfiles().At(0).Resource().Attributes() }, next)
 }
 
 func vNewComp(id component.ID) *vComp {
@@ -183,22 +201,22 @@ const vStab = component.StabilityLevelDevelopment
 var vRecvFactory = xreceiver.NewFactory(component.MustNewType("vrecv"), vCfg,
 	xreceiver.WithTraces(func(_ context.Context, set receiver.Settings, _ component.Config, n consumer.Traces) (receiver.Traces, error) {
 		vWorld.recv[set.ID.Name()] = n.Capabilities().MutatesData
-		vWorld.push[set.ID.Name()] = func() error { return n.ConsumeTraces(context.Background(), testdata.GenerateTraces(2)) }
+		vWorld.push[set.ID.Name()] = func(ctx context.Context) error { return n.ConsumeTraces(ctx, testdata.GenerateTraces(2)) }
 		return vNewComp(set.ID), nil
 	}, vStab),
 	xreceiver.WithMetrics(func(_ context.Context, set receiver.Settings, _ component.Config, n consumer.Metrics) (receiver.Metrics, error) {
 		vWorld.recv[set.ID.Name()] = n.Capabilities().MutatesData
-		vWorld.push[set.ID.Name()] = func() error { return n.ConsumeMetrics(context.Background(), testdata.GenerateMetrics(2)) }
+		vWorld.push[set.ID.Name()] = func(ctx context.Context) error { return n.ConsumeMetrics(ctx, testdata.GenerateMetrics(2)) }
 		return vNewComp(set.ID), nil
 	}, vStab),
 	xreceiver.WithLogs(func(_ context.Context, set receiver.Settings, _ component.Config, n consumer.Logs) (receiver.Logs, error) {
 		vWorld.recv[set.ID.Name()] = n.Capabilities().MutatesData
-		vWorld.push[set.ID.Name()] = func() error { return n.ConsumeLogs(context.Background(), testdata.GenerateLogs(2)) }
+		vWorld.push[set.ID.Name()] = func(ctx context.Context) error { return n.ConsumeLogs(ctx, testdata.GenerateLogs(2)) }
 		return vNewComp(set.ID), nil
 	}, vStab),
 	xreceiver.WithProfiles(func(_ context.Context, set receiver.Settings, _ component.Config, n xconsumer.Profiles) (xreceiver.Profiles, error) {
 		vWorld.recv[set.ID.Name()] = n.Capabilities().MutatesData
-		vWorld.push[set.ID.Name()] = func() error { return n.ConsumeProfiles(context.Background(), testdata.GenerateProfiles(2)) }
+		vWorld.push[set.ID.Name()] = func(ctx context.Context) error { return n.ConsumeProfiles(ctx, testdata.GenerateProfiles(2)) }
 		return vNewComp(set.ID), nil
 	}, vStab),
 )
@@ -341,9 +359,9 @@ var vSignals = []pipeline.Signal{pipeline.SignalLogs, pipeline.SignalMetrics, pi
 
 // vRunTree builds the graph of the tree, reads the advertised capabilities, pushes one payload through
 // and evaluates the direct oracle.  simple != nil: emit a CPipe case for the single exporter-only pipeline.
-func vRunTree(out *vOut, sig int, roots []*vPipeT, simple bool) {
+func vRunTree(out *vOut, sig int, roots []*vPipeT, simple bool, ctxMode, ctxPick int) {
 	signal := vSignals[sig]
-	vWorld = &vWorldT{arr: map[string]*vArr{}, recv: map[string]bool{}, push: map[string]func() error{}}
+	vWorld = &vWorldT{arr: map[string]*vArr{}, recv: map[string]bool{}, push: map[string]func(context.Context) error{}}
 	w := vWorld
 	cfgs := pipelines.Config{}
 	rcfg := map[component.ID]component.Config{}
@@ -515,7 +533,22 @@ func vRunTree(out *vOut, sig int, roots []*vPipeT, simple bool) {
 				w.fail("panic-in-graph", fmt.Sprint(r))
 			}
 		}()
-		if err := w.push["r0"](); err != nil {
+		// the caller's context: live | already cancelled | cancelled when a chosen component is reached
+		ctx, cancel := context.WithCancel(context.WithValue(context.Background(), vGCtxKey{}, 4242))
+		defer cancel()
+		w.cancel = cancel
+		switch ctxMode {
+		case 1:
+			cancel()
+			w.ended = true
+			out.Stat("graph_ctx_cancelled_before", 1)
+		case 2:
+			w.cancelAt = all[ctxPick%len(all)]
+			out.Stat("graph_ctx_cancelled_at_component", 1)
+		default:
+			out.Stat("graph_ctx_live", 1)
+		}
+		if err := w.push["r0"](ctx); err != nil {
 			w.fail("consume-error", err.Error())
 		}
 	}()
@@ -620,7 +653,7 @@ func TestVerifC06Graph(t *testing.T) {
 						mut := eb>>i&1 == 1
 						p.exps = append(p.exps, &vNodeT{mut: mut, name: g.fresh("e", mut)})
 					}
-					vRunTree(out, k%4, []*vPipeT{p}, true)
+					vRunTree(out, k%4, []*vPipeT{p}, true, rng.Pick(2, 1, 2), rng.Intn(64))
 					k++
 				}
 			}
@@ -634,6 +667,6 @@ func TestVerifC06Graph(t *testing.T) {
 		for j, mm := 0, 1+rng.Pick(3, 4, 2); j < mm; j++ {
 			roots = append(roots, g.pipe(2, pm))
 		}
-		vRunTree(out, c%4, roots, false)
+		vRunTree(out, c%4, roots, false, rng.Pick(2, 1, 2), rng.Intn(64))
 	}
 }
